@@ -7,7 +7,8 @@ Property theorems only (helper lemmas: `BoxoModel/C19/{Lemmas,Paths,Refine,MvPro
 * the model (`BoxoModel/C19/Model.lean`): the two-level state of every live directory (links of the
   UnixFS directory vs cache of live children), `childUnsync`, `cacheSync`, `localUpdate` /
   `updateChildEntry` up to the root, and the operations of `ops.go` at path level with their error classes;
-  `step false` is the repaired code (`fix:` of `Mv`), `step true` the code as found;
+  `step false` is the repaired code (the two `fix:`es of `Mv`), `step true` has the directory comparison of
+  `Mv` as found (names instead of identity);
 * the specification (`BoxoModel/C19/Spec.lean`): the same operations on the plain tree `N`, where a failed
   operation has no state to change.
 
@@ -42,11 +43,9 @@ theorem c19_failed_unchanged (s : St) (op : Op) (e : Err) (h : (step false s op)
 
 /-- **Move.**  After a successful `Mv src dst` the node that was at `src` is at the destination
 (`mvTarget`: the place named by `dst`, or inside it when a directory is there), and `src` no longer resolves
-unless it is the destination itself.  The guard excludes a move of a directory into its own subtree (the
-code accepts it and drops the directory: the destination lies inside what is then unlinked). -/
-theorem c19_mv (s : St) (src dst : Path) (o : Out) (h : (step false s (.mv src dst)).2 = .ok o)
-    (hguard : ¬ ((src.split.1 ++ [src.split.2]) <+: mvTarget src dst s.root.view ∧
-      src.split.1 ++ [src.split.2] ≠ mvTarget src dst s.root.view)) :
+unless it is the destination itself.  (No side condition: a move of a directory into itself or below
+itself is refused by the repaired code, see `c19_mv_into_self_refused`.) -/
+theorem c19_mv (s : St) (src dst : Path) (o : Out) (h : (step false s (.mv src dst)).2 = .ok o) :
     ∃ nd, N.get (src.split.1 ++ [src.split.2]) s.root.view = .ok nd ∧
       N.get (mvTarget src dst s.root.view) (step false s (.mv src dst)).1.root.view = .ok nd ∧
       (src.split.1 ++ [src.split.2] ≠ mvTarget src dst s.root.view →
@@ -60,7 +59,18 @@ theorem c19_mv (s : St) (src dst : Path) (o : Out) (h : (step false s (.mv src d
     have ht' : (step false s (.mv src dst)).1.root.view = t' := by
       simpa [sstep, specOp, mapOut, hs] using h1.2
     rw [ht']
-    exact smv_spec hs hguard
+    exact smv_spec hs
+
+/-- a successful move never has its destination strictly inside the source: nothing is lost -/
+theorem c19_mv_into_self_refused (s : St) (src dst : Path) (o : Out)
+    (h : (step false s (.mv src dst)).2 = .ok o) :
+    ¬ ((src.split.1 ++ [src.split.2]) <+: mvTarget src dst s.root.view ∧
+      src.split.1 ++ [src.split.2] ≠ mvTarget src dst s.root.view) := by
+  obtain ⟨nd, h0, h1, h2⟩ := c19_mv s src dst o h
+  rintro ⟨⟨r, hr⟩, hne⟩
+  obtain ⟨e, he⟩ := h2 hne
+  rw [← hr, N.get_append, he] at h1
+  simp at h1
 
 /-- the usual case of `c19_mv`: a plain source path `…/name`; its components are `src.comps` -/
 theorem c19_mv_split (src : Path) (h : src.trailing = false) (hne : src.comps ≠ []) :
@@ -126,6 +136,9 @@ example : mvTarget ⟨["a", "x", "f"], false⟩ ⟨["b", "x"], false⟩ exState.
 -- a failing operation that did mutate the state underneath: moving onto an existing name inside a directory
 example : (step false exState (.mv ⟨["a", "x"], false⟩ ⟨["b"], false⟩)).2 = .error .exists_ := by decide
 example : (step false exState (.mv ⟨["a", "x"], false⟩ ⟨["b"], false⟩)).1.root ≠ exState.root := by decide
+-- a directory is not moved into itself or below itself (the unrepaired code accepts this and loses the subtree)
+example : (step false exState (.mv ⟨["a"], false⟩ ⟨["a", "x"], false⟩)).2 = .error .intoself := by decide
+example : (step false exState (.mv ⟨["a"], false⟩ ⟨[], true⟩)).2 = .error .intoself := by decide
 -- flush of a sub-directory publishes a root that is NOT the whole view (the sibling stays stale) …
 example : (step false exState (.flush ["b"])).1.pub ≠ (step false exState (.flush ["b"])).1.root.view := by decide
 -- … while `c19_flush_persists` holds at the flushed path
